@@ -44,9 +44,9 @@ constexpr auto ceil_check(T const x) noexcept -> T
             !is_finite(x) ? x
                           :
                           // signed-zero cases
-            etl::numeric_limits<T>::epsilon() > abs(x) ? x
-                                                       :
-                                                       // else
+            x == T(0) ? x
+                      :
+                      // else
             ceil_int(x, T(static_cast<llint_t>(x)))
     );
 }
